@@ -6,9 +6,8 @@ from kv import Case, xn, xb, xl, xlist, xparse, xtext
 
 ID = "C14"
 MODULE = "C14"
-IMPORTS = "Bytes RuleSet Nonce RuleSetProofs NonceProofs"
+IMPORTS = "Bytes RuleSetStd RuleSet Nonce RuleSetProofs NonceProofs"
 PROFILES = ("dev",)
-THEOREMS = []  # filled in below (kept at the end of the file for readability)
 
 # ------------------------------------------------------------------------------------------------
 # RuleSet
@@ -127,7 +126,7 @@ IN_HEADERS = [(b"referrer-policy", b"same-origin"), (b"referrer-policy", b"origi
 
 def pkg_case(adds, path, hs, server, kind):
     x = xl(x_adds(adds), xb(path), xlist([xl(xb(n), xb(v)) for n, v in hs]), xb(server))
-    return Case("csp.package", x, None, {"kind": kind})
+    return Case("csp.package", x, "csp.package_spec", {"kind": kind})
 
 
 def gen_package(rng, tier):
@@ -227,8 +226,79 @@ def gen_nonce(rng, tier):
     return cases
 
 
+# ------------------------------------------------------------------------------------------------
+# c14.conn: the send path over a loopback connection (kvarn::handle_connection)
+# ------------------------------------------------------------------------------------------------
+GET, HEAD, POST = 0, 1, 2
+NONCE_DOC = b'<script nonce="old">a()</script><style nonce=\'\'>p{}</style><a href="?nonce=1">l</a>'
+
+
+def conn_handler(path, status, hs, cache, nonce, body):
+    return xl(xb(path), xn(status), xlist([xl(xb(n), xb(v)) for n, v in hs]), xn(cache), xn(nonce), xb(body))
+
+
+def conn_req(method, path, rng_kind=0, ims=0):
+    return xl(xn(method), xb(path), xn(rng_kind), xn(ims))
+
+
+def conn_case(adds, server, handlers, reqs, kind):
+    x = xl(x_adds(adds), xb(server), xlist(handlers), xlist(reqs))
+    return Case("c14.conn", x, "c14.conn_spec", {"kind": kind})
+
+
+CONN_HANDLERS = [
+    (b"/p", 200, [(b"referrer-policy", b"origin")], 1, 0, b"0123456789"),
+    (b"/q", 200, [], 0, 0, b"not cached " * 20),
+    (b"/n", 200, [], 1, 1, NONCE_DOC),
+    (b"/n2", 200, [(b"referrer-policy", b"same-origin")], 0, 1, b"<script nonce='x'>2</script>"),
+    (b"/e", 500, [], 1, 0, b"handler error"),
+    (b"/f", 403, [(b"content-security-policy", b"default-src 'none'")], 1, 0, b"forbidden"),
+    (b"/c", 201, [(b"referrer-policy", b"origin"), (b"referrer-policy", b"strict-origin")], 1, 0, b"created!"),
+    (b"/g", 404, [(b"server", b"Upstream/1")], 1, 0, b"handler says gone"),
+    (b"/index.html", 200, [], 1, 0, b"<html>index</html>"),
+    (b"/a/b", 200, [], 1, 0, b"a/b" * 30),
+    (b"/a/index.html", 200, [], 0, 0, b"a index"),
+]
+CONN_PATHS = [h[0] for h in CONN_HANDLERS] + [b"/", b"/a/", b"/none", b"/a/none", b"/./p", b"/a/./b", b"/p."]
+CONN_PATTERNS = [b"/*", b"/p", b"/p*", b"/a/*", b"/a/b", b"/a/b*", b"/n", b"/n*", b"/index.html", b"/e*", b"/", b"/a/index.html", b"/none*",
+                 b"/./*", b"/a*", b"*", b"/q"]
+
+
+def all_kinds_reqs(path):
+    """miss, hit, 304, 206, 416, HEAD, 416 on a 304, POST"""
+    return [conn_req(GET, path), conn_req(GET, path), conn_req(GET, path, 0, 1), conn_req(GET, path, 1), conn_req(GET, path, 2),
+            conn_req(HEAD, path), conn_req(GET, path, 1, 1), conn_req(POST, path), conn_req(HEAD, path, 1)]
+
+
+def gen_conn(rng, tier):
+    cases = []
+    hs_all = [conn_handler(*h) for h in CONN_HANDLERS]
+    dflt = [(b"/*", DEFAULT_RULE)]
+    layered = [(b"/*", DEFAULT_RULE), (b"/a/*", rule([(2, [b"'none'"])])), (b"/a/b", rule([(10, [b"'self'", b"https:"])])),
+               (b"/p", rule([(5, [b"data:"])])), (b"/*", rule([(2, [b"'self'"]), (5, [b"https:"])])), (b"/p", rule([(3, [b"'self'"])]))]
+    # every kind of response for every handler path, a missing path and a refused path; three rule sets
+    for adds in (dflt, layered, []):
+        for path in [h[0] for h in CONN_HANDLERS] + [b"/none", b"/./p", b"/", b"/a/"]:
+            cases.append(conn_case(adds, b"Kvarn/0.6.3", hs_all, all_kinds_reqs(path), "conn-kinds"))
+    # the re-add witness through the whole server
+    cases.append(conn_case([(b"/p", rule([(10, [b"'none'"])])), (b"/pp", DEFAULT_RULE), (b"/ppp", DEFAULT_RULE), (b"/p", rule([(11, [b"https:"])]))],
+                           b"S", hs_all, all_kinds_reqs(b"/p"), "conn-kinds"))
+    for _ in range(140 if tier == "quick" else 3000):
+        adds = [(rng.choice(CONN_PATTERNS), rand_rule(rng)) for _ in range(rng.randrange(0, 7))]
+        if rng.random() < 0.3:
+            adds = dflt + adds
+        hs = [conn_handler(*h) for h in CONN_HANDLERS if rng.random() < 0.8]
+        reqs = []
+        for _ in range(rng.randrange(4, 13)):
+            path = rng.choice(CONN_PATHS) if rng.random() < 0.6 else rng.choice([b"/p", b"/n", b"/e", b"/a/b"])
+            method = rng.choice([GET] * 15 + [HEAD] * 3 + [POST] * 2)
+            reqs.append(conn_req(method, path, rng.choice([0] * 7 + [1, 1, 2]), 1 if rng.random() < 0.25 else 0))
+        cases.append(conn_case(adds, rng.choice([b"Kvarn/0.6.3", b"S", b"x y"]), hs, reqs, "conn-random"))
+    return cases
+
+
 def generate(rng, tier):
-    return gen_ruleset(rng, tier) + gen_package(rng, tier) + gen_nonce(rng, tier)
+    return gen_ruleset(rng, tier) + gen_package(rng, tier) + gen_nonce(rng, tier) + gen_conn(rng, tier)
 
 
 # ------------------------------------------------------------------------------------------------
@@ -284,7 +354,53 @@ def has_none(x):
     return False
 
 
+def unify(t, data, env):
+    """template (L (B lit) (L (N k)) ...) against bytes; a hole k stands for 24 bytes (bound on first sight)"""
+    if t[0] != "L" or not isinstance(data, (bytes, bytearray)):
+        return False
+    pos = 0
+    for seg in t[1]:
+        if seg[0] == "B":
+            if data[pos:pos + len(seg[1])] != seg[1]:
+                return False
+            pos += len(seg[1])
+        elif seg[0] == "L" and len(seg[1]) == 1 and seg[1][0][0] == "N":
+            k = seg[1][0][1]
+            v = data[pos:pos + 24]
+            if len(v) != 24 or env.setdefault(k, v) != v:
+                return False
+            pos += 24
+        else:
+            return False
+    return pos == len(data)
+
+
+def is_ok(p):
+    return p[0] == "L" and len(p[1]) == 2 and p[1][0] == ("N", 0)
+
+
+def conn_agree(i, m):
+    """implementation output of c14.conn against a model/specification output with templates"""
+    pi, pm = xparse(i), xparse(m)
+    if not (is_ok(pi) and is_ok(pm)):
+        return i == m
+    ri, rm = pi[1][1][1], pm[1][1][1]
+    if len(ri) != len(rm):
+        return False
+    env = {}
+    for a, b in zip(ri, rm):
+        (sa, ha, ba), (sb, hb, bb) = a[1], b[1]
+        if sa != sb or len(ha[1]) != len(hb[1]) or not unify(bb, ba[1], env):
+            return False
+        for x, y in zip(ha[1], hb[1]):
+            if x[1][0] != y[1][0] or not unify(y[1][1], x[1][1][1], env):
+                return False
+    return True
+
+
 def compare(c, i, m):
+    if c.comp == "c14.conn":
+        return conn_agree(i, m)
     if c.comp != "nonce.page":
         return i == m
     pi, pm = xparse(i), xparse(m)
@@ -292,21 +408,51 @@ def compare(c, i, m):
     return (not has_none(filled)) and xtext(filled) == i
 
 
+SEC_NAMES = [b"content-security-policy", b"referrer-policy", b"server", b"csp-nonce"]
+
+
+def sec_values(hs):
+    """(L (L (B name) (B value)) ...) -> the values of the four security headers, each list sorted"""
+    out = []
+    for n in SEC_NAMES:
+        out.append(sorted(h[1][1][1] for h in hs[1] if h[1][0][1] == n))
+    return out
+
+
 def spec_ok(c, i, s):
+    if c.comp == "c14.conn":
+        return conn_agree(i, s)
+    if c.comp == "csp.package":
+        pi, ps = xparse(i), xparse(s)
+        if not is_ok(pi):
+            return False
+        want = [sorted(v[1] for v in l[1]) for l in ps[1]]
+        return sec_values(pi[1][1][1][1]) == want
     if c.comp != "nonce.page":
         return i == s
     ps = xparse(s)
-    if ps == ("L", []):
-        return True
     pi = xparse(i)
-    if not (pi[0] == "L" and len(pi[1]) == 2 and pi[1][0] == ("N", 0)):
+    if not is_ok(pi):
         return False        # the specification has no failure case: every body is rewritten
-    want = fill_tb(ps[1][0], impl_nonces(pi))
-    got = pi[1][1][1][0][1][2]
-    return want is not None and want == got
+    nonces = impl_nonces(pi)
+    body_spec, sec_spec = ps[1]
+    if body_spec[1]:
+        want = fill_tb(body_spec[1][0], nonces)
+        got = pi[1][1][1][0][1][2]
+        if want is None or want != got:
+            return False
+    want_sec = []
+    for l in sec_spec[1]:
+        vals = [fill_tb(t, nonces) for t in l[1]]
+        if any(v is None for v in vals):
+            return False
+        want_sec.append(sorted(v[1] for v in vals))
+    return sec_values(pi[1][1][1][4]) == want_sec
 
 
 B64 = re.compile(rb"^[A-Za-z0-9+/]{22}==$")
+NONCE_SRC = re.compile(rb"'nonce-([A-Za-z0-9+/]{22}==)'")
+NONCE_ATTR = re.compile(rb"nonce=[\"']([A-Za-z0-9+/]{22}==)[\"']")
 
 
 def covering(adds, path):
@@ -334,6 +480,30 @@ def extra_oracle(c, i):
         refs = [v for n, v in hs if n == b"referrer-policy"]
         if (had_ref and sorted(refs) != sorted(had_ref)) or (not had_ref and refs != [b"no-referrer"]):
             return "referrer-policy is neither the handler's nor no-referrer"
+        return None
+    if c.comp == "c14.conn":
+        if not is_ok(pi):
+            return "a request through handle_connection got no answer (panic in the pipeline)"
+        server = c.x[1][1][1]
+        nonce_paths = {h[1][0][1] for h in c.x[1][2][1] if h[1][4][1] == 1}
+        seen = set()
+        for r, rep in zip(c.x[1][3][1], pi[1][1][1]):
+            st, hs, body = rep[1]
+            hs = [(h[1][0][1], h[1][1][1]) for h in hs[1]]
+            if any(n == b"csp-nonce" for n, _ in hs):
+                return "csp-nonce header exposed on the wire (status %d)" % st[1]
+            if [v for n, v in hs if n == b"server"] != [server]:
+                return "status %d reply lacks the configured server header" % st[1]
+            if not [v for n, v in hs if n == b"referrer-policy"]:
+                return "status %d reply lacks referrer-policy" % st[1]
+            vals = set(NONCE_SRC.findall(b" ".join(v for n, v in hs if n == b"content-security-policy")))
+            if r[1][0][1] == GET and st[1] == 200 and r[1][1][1] in nonce_paths:
+                vals |= set(NONCE_ATTR.findall(body[1]))
+                if len(vals) > 1:
+                    return "nonce page: body and policy carry different values"
+                if vals & seen:
+                    return "nonce repeated between two responses (served from a cache?)"
+                seen |= vals
         return None
     if c.comp != "nonce.page":
         return None
@@ -373,6 +543,8 @@ def signature(c, m):
         return "page" if b"nonce=" in c.x[1][0][1] else None
     if c.comp == "ruleset.get":
         return "rs" if "(L (N" in m else None
+    if c.comp == "c14.conn":
+        return "conn"
     return "pkg"
 
 
@@ -395,6 +567,8 @@ def directed(rng, mismatches):
     for _ in range(3000):
         n = rng.randrange(1, 9)
         cases.append(rs_case(number([rng.choice(PATTERNS) for _ in range(n)]), "directed"))
+    cases += [c for c in gen_conn(rng, "quick") if c.meta["kind"] == "conn-kinds"]
+    cases += gen_package(rng, "quick")
     return cases
 
 
@@ -402,24 +576,150 @@ RULE = ("(a) kvarn::extensions::RuleSet::<u32> called directly: histories of add
         "wildcard} (+ odd ones: '*', '', '/a**') - exhaustive to length 4 (quick: over a 5-pattern subset; thorough: all 10, plus lengths 5-8 "
         "over 4 patterns), random histories of 1-20 adds with re-adds, and histories of 21-59 distinct patterns (beyond the insertion-sort "
         "threshold of sort_unstable_by); get() for 14 probe paths; only get results are compared (with the model and with the independent "
-        "resolver). (b) the nonce Present extension through kvarn::handle_cache in process (two requests per case, handler-call counter) on "
-        "bodies over the alphabet {nonce=, \", ', a, SP, >} exhaustive to 4 (quick) / 6 (thorough) tokens, random longer strings, 27 documents; "
-        "the generator's value is read from the reply and substituted into the model's / specification's template. (c) the Package "
-        "extensions of Extensions::new()+with_csp+with_server_header called in list order on random rule sets, paths, incoming headers "
-        "(csp-nonce values incl. non-ASCII, pre-set referrer-policy / server / content-security-policy). distinct_nontrivial counts distinct "
-        "inputs with a rule hit / a nonce= occurrence / any package run")
+        "resolver ruleset.spec). (b) the nonce Present extension through kvarn::handle_cache in process (two requests per case, handler-call "
+        "counter) on bodies over the alphabet {nonce=, \", ', a, SP, >} exhaustive to 4 (quick) / 6 (thorough) tokens, random longer strings, "
+        "27 documents; the generator's value is read from the reply and substituted into the model's / specification's template (nonce.spec: "
+        "splice specification of the body + demanded security headers after the Package chain). (c) the Package extensions of "
+        "Extensions::new()+with_csp+with_server_header called in list order on random rule sets, paths, incoming headers (csp-nonce values "
+        "incl. non-ASCII, pre-set referrer-policy / server / content-security-policy), against the model and the header specification "
+        "csp.package_spec. (d) the send path: kvarn::handle_connection on a loopback TCP pair, one host with response cache, 11 Prepare "
+        "handlers (cacheable / not, statuses 200 201 403 404 500, own referrer-policy / CSP / server headers, two nonce pages), random CSP rule "
+        "sets with re-adds, sequences of 4-12 raw HTTP/1.1 requests (GET/HEAD/POST, Range satisfiable / unsatisfiable, If-Modified-Since in the "
+        "future, missing paths, paths refused by sanitize_request, paths rewritten by the Prime extension) so that misses, hits, 304, 206, 416, "
+        "400, 404, 5xx all occur; status, the four security headers on the wire and the body of 200/206 GETs are compared with the model "
+        "(c14.conn) and the specification (c14.conn_spec); nonce values are unified across body and policy. distinct_nontrivial counts "
+        "distinct inputs with a rule hit / a nonce= occurrence / any package or connection run")
 ASSUMPTIONS = [
-    "rand::rng() yields 16 fresh bytes per call; the model takes the value as an input (symbolic in the correspondence run) and the "
-    "theorems hold for every value; 'differs between responses' is checked on the implementation's output, not proved",
+    "rand::rng() yields 16 fresh bytes per call; the model takes the draws as a function rng : nat -> bytes (symbolic in the correspondence "
+    "run) and the theorems hold for every rng; 'differs between responses' is proved from 'one draw per response, nothing cached' under "
+    "the hypothesis that the draws differ, and observed on the implementation's output (extra oracle)",
     "sort_unstable_by returns a permutation sorted for its comparator (theorem most_specific_rule holds for every such permutation; the "
-    "executable model uses the insertion sort that the std library runs for up to 20 elements)",
+    "executable model uses the insertion sort that the std library runs for up to 20 elements and is proved to be one of them)",
     "the CSP rule is chosen by request.uri().path() after Prime rewriting (e.g. / -> /index.html); the theorems speak about that path",
-    "HeaderMap is modelled as an association list (insert = replace all values of the name); header names are lower-case tokens",
-    "responses that do not go through SendKind::send (connection-level parse errors) are outside the property and the model",
+    "HeaderMap is modelled as an association list (insert = replace all values of the name, entry().or_insert = keep); header names are "
+    "lower-case tokens; h_all = HeaderMap::get_all",
+    "a handler-set content-security-policy is replaced when the most specific rule serialises to a non-empty policy and kept when the rule is "
+    "empty or no rule covers the path (this is what with_csp does; the property text is read accordingly)",
+    "responses that do not go through SendKind::send (409 unknown host, 429 from the limiter, connection-level parse errors) are outside "
+    "the property and the model; HTTP/2 push (SendKind::Push) runs the same resolve_package call and is not exercised",
+    "send-path fixture: query strings, request bodies, compression (no accept-encoding is sent) and vary are not part of the fixture; "
+    "sanitize_request is modelled on the fixture's paths only (refused iff the path contains './'); error-page bodies are a placeholder",
 ]
 TRUSTED = ["modelled: src/extensions.rs RuleSet::{add_mut,get}, with_nonce (rewriting loop, csp-nonce header, server cache preference), "
-           "with_no_referrer, with_server_header, resolve_package; src/csp.rs Rule::to_header_nonce, with_csp; utils BytesCow::replace "
-           "(splice semantics, panic when the range ends after the buffer); comprash ServerCachePreference::cache"]
-LEVEL_TEXT = ""
-LEVEL_NOTE = ""
-TECHNIQUE = "Coq proof (model refines an independent resolver / splice specification for all histories and bodies) + differential correspondence"
+           "with_no_referrer, with_server_header, with_uri_redirect (path suffix), resolve_package; src/csp.rs Rule::to_header_nonce, with_csp; "
+           "utils BytesCow::replace (splice semantics, panic when the range ends after the buffer); comprash ServerCachePreference::cache; "
+           "src/lib.rs handle_cache (hit / If-Modified-Since / miss / admission) and SendKind::send (range, 416/400 replacement, package "
+           "chain) at the granularity of the fixture"]
+LEVEL_TEXT = ("Machine-checked Coq theorems over transcriptions of RuleSet::add_mut/get, the nonce Present extension, "
+              "Rule::to_header_nonce and the Package chain of SendKind::send: (1) for every history of add_mut calls (any order, re-adds) "
+              "and whatever sorted permutation sort_unstable_by returns, get answers with the rule added last for the most specific "
+              "covering pattern (exact before wildcard, longer before shorter) - refinement to an independent resolver over the history; "
+              "(2) for every body and nonce the rewriting loop terminates without panic and returns the body cut into literal bytes and "
+              "well-formed nonce=\"..\"/nonce='..' attributes (unique greedy parse) with every attribute value replaced and nothing else "
+              "changed; (3) with a nonce, each of script-src, style-src, script-src-elem, style-src-elem is emitted as a '; '-delimited "
+              "directive ending in 'nonce-<value>', the same value as in the body; (4) n requests for a nonce page are n computations "
+              "with n generator draws, nothing is stored, and the rewritten page is refused by the admission filter of the cache model "
+              "(may_store) for every method/status; (5) no output of the Package chain contains csp-nonce; (6) every response head that "
+              "goes through the chain - in the send-path model: hits, misses, 4xx/5xx, 304, 206, 416 - carries server = the configured value, "
+              "referrer-policy = the handler's or no-referrer, and content-security-policy = the serialisation of the most specific rule "
+              "(or what the handler set when that rule is empty / no rule covers the path). Refutation witnesses for kvarn 0.6.3 (re-add "
+              "keeps the old rule; stray quote, clobbered values and panics in the rewriter; csp-nonce exposed) are proved on the v0 models; "
+              "the three defects are repaired in the repository (fix: commits). The model is tied to the repository on every run by a "
+              "differential run of the real RuleSet, handle_cache, the Package extensions and kvarn::handle_connection over loopback TCP.")
+LEVEL_NOTE = ("Trusted: Coq kernel, extraction (ExtrOcamlBasic) reduced by an in-kernel recheck sample, the hand transcription of the anchored "
+              "code as validated by the differential run. The serialisation of a rule is specified by its model (to_header_nonce) plus the "
+              "directive theorem, not by an independent CSP grammar; the generator's randomness is a parameter; the send path is modelled at "
+              "the granularity of a fixture (which head reaches resolve_package), the HTTP/1 printer and HTTP/2 are other properties. No axioms.")
+TECHNIQUE = ("Coq proof (refinement of an independent longest-match resolver for all add histories and sort outcomes; loop = splice "
+             "specification for all bodies; header equations of the Package chain for all response heads) + differential correspondence "
+             "model vs. implementation (direct calls, handle_cache in process, handle_connection over loopback TCP) + specification oracles")
+
+THEOREMS = [
+    ("most_specific_rule",
+     "forall (R : Type) (hist : list (bytes * R)) (rules : ruleset R) (uri : bytes), "
+     "rs_reach hist rules -> rs_get rules uri = resolve hist uri"),
+    ("most_specific_rule_model",
+     "forall (R : Type) (hist : list (bytes * R)) (uri : bytes), "
+     "rs_reach hist (rs_build rs_add hist) /\\ rs_get (rs_build rs_add hist) uri = resolve hist uri"),
+    ("resolver_meaning",
+     "forall (R : Type) (hist : list (bytes * R)) (uri : bytes) (r : R), resolve hist uri = Some r <-> "
+     "exists p, In p (map fst hist) /\\ covers p uri = true /\\ "
+     "(forall q, In q (map fst hist) -> covers q uri = true -> more_specific q p = false) /\\ last_added hist p = Some r"),
+    ("resolver_none",
+     "forall (R : Type) (hist : list (bytes * R)) (uri : bytes), "
+     "resolve hist uri = None <-> forall p, In p (map fst hist) -> covers p uri = false"),
+    ("covers_meaning",
+     "forall p uri : bytes, covers p uri = true <-> "
+     "(is_wild p = false /\\ p = uri) \\/ (exists pre rest, p = pre ++ [c_star] /\\ uri = pre ++ rest)"),
+    ("specificity_order",
+     "forall p q : bytes, (is_wild p = false -> is_wild q = true -> more_specific p q = true) /\\ "
+     "(is_wild p = is_wild q -> (length q < length p)%nat -> more_specific p q = true) /\\ "
+     "(forall uri, covers p uri = true -> covers q uri = true -> more_specific q p = false -> more_specific p q = false -> p = q)"),
+    ("last_added_meaning",
+     "forall (R : Type) (hist : list (bytes * R)) (p : bytes) (r : R), "
+     "last_added hist p = Some r <-> exists h1 h2, hist = h1 ++ (p, r) :: h2 /\\ ~ In p (map fst h2)"),
+    ("readd_v0_refuted",
+     "rs_get (rs_build rs_add_v0 v0_hist) (B \"/a\") = Some 1 /\\ resolve v0_hist (B \"/a\") = Some 4 /\\ "
+     "rs_get (rs_build rs_add v0_hist) (B \"/a\") = Some 4"),
+    ("nonce_spec",
+     "forall nonce body : bytes, nonce_rewrite nonce body = Ok (Nonce.nonce_spec nonce body)"),
+    ("nonce_splice",
+     "forall nonce body : bytes, exists ps, Forall wf_piece ps /\\ greedy ps /\\ body = render (fun v => v) ps /\\ "
+     "nonce_rewrite nonce body = Ok (render (fun _ => nonce) ps)"),
+    ("nonce_parse_unique",
+     "forall ps1 ps2 : list piece, Forall wf_piece ps1 -> greedy ps1 -> Forall wf_piece ps2 -> greedy ps2 -> "
+     "render (fun v => v) ps1 = render (fun v => v) ps2 -> ps1 = ps2"),
+    ("nonce_never_panics",
+     "forall nonce body : bytes, nonce_rewrite nonce body <> Panic /\\ forall e, nonce_rewrite nonce body <> Err e"),
+    ("nonce_v0_refuted",
+     "nonce_rewrite_v0 (B \"N\") [] = Panic /\\ nonce_rewrite_v0 (B \"N\") (B \"xnonce=\") = Panic /\\ "
+     "nonce_rewrite_v0 (B \"N\") (B \"<s nonce=\"\"x\"\">\") = Ok (B \"<s nonce=\"\"N\"\"\"\">\") /\\ "
+     "nonce_rewrite_v0 (B \"N\") (B \"<s nonce=abc>\") = Ok (B \"<s nonce=\"\"\"\"c>\")"),
+    ("nonce_in_directives",
+     "forall (r : csp_rule) (n d : bytes), length (fst r) = 27%nat -> hv_to_str_ok n = true -> In d nonce_directives -> "
+     "exists vals v pre post, In ([d], vals) (combine directive_names (fst r)) /\\ to_header_nonce r (Some n) = Some v /\\ "
+     "v = pre ++ d ++ [c_sp] ++ (if is_nil (join_sp vals) then SELF_SP else join_sp vals ++ [c_sp]) ++ nonce_source n ++ post /\\ "
+     "sep_head pre /\\ sep_tail post"),
+    ("nonce_same_in_body_and_policy",
+     "forall (hist : list (bytes * csp_rule)) (rules : ruleset csp_rule) (server path : bytes) (rng : nat -> bytes) "
+     "(handler : page) (rule : csp_rule) (k : nat), rs_reach hist rules -> resolve hist path = Some rule -> "
+     "let reply := nonce_reply (rng k) handler in "
+     "h_all H_CSP (package_chain rules server path (pg_headers reply)) = "
+     "match to_header_nonce rule (Some (rng k)) with Some v => [v] | None => h_all H_CSP (pg_headers handler) end /\\ "
+     "exists ps, Forall wf_piece ps /\\ greedy ps /\\ pg_body handler = render (fun v => v) ps /\\ "
+     "pg_body reply = render (fun _ => rng k) ps"),
+    ("nonce_not_cached",
+     "forall (rng : nat -> bytes) (handler : page) (n : nat), "
+     "page_history nonce_rewrite rng true handler n {| st_calls := O; st_cache := None |} = "
+     "Ok ({| st_calls := n; st_cache := None |}, map (fun k => nonce_reply (rng k) handler) (seq 1 n))"),
+    ("nonce_not_admitted",
+     "forall (rewrite : bytes -> bytes -> outcome bytes) (n : bytes) (p p' : page), nonce_present rewrite n p = Ok p' -> "
+     "pg_pref p' = SNone /\\ forall cache_on m status compress, Cache.may_store cache_on m (fat_of status compress p') = false"),
+    ("nonce_fresh_per_response",
+     "forall (rng : nat -> bytes) (handler : page) (n i j : nat), (forall a b, a <> b -> rng a <> rng b) -> i <> j -> "
+     "(i < n)%nat -> (j < n)%nat -> forall st out, "
+     "page_history nonce_rewrite rng true handler n {| st_calls := O; st_cache := None |} = Ok (st, out) -> "
+     "exists ri rj, nth_error out i = Some ri /\\ nth_error out j = Some rj /\\ "
+     "h_get H_NONCE (pg_headers ri) = Some (rng (S i)) /\\ h_get H_NONCE (pg_headers rj) = Some (rng (S j)) /\\ "
+     "rng (S i) <> rng (S j)"),
+    ("internal_header_hidden",
+     "forall (rules : ruleset csp_rule) (server path : bytes) (h : headers), "
+     "~ In H_NONCE (map fst (package_chain rules server path h))"),
+    ("internal_header_v0_refuted",
+     "h_all H_NONCE (package_chain_v0 [] (B \"S\") (B \"/x\") [(H_NONCE, B \"n\")]) = [B \"n\"] /\\ "
+     "h_all H_NONCE (package_chain [] (B \"S\") (B \"/x\") [(H_NONCE, B \"n\")]) = []"),
+    ("always_headers",
+     "forall (hist : list (bytes * csp_rule)) (rules : ruleset csp_rule) (server path : bytes) (h : headers), "
+     "rs_reach hist rules -> "
+     "h_all H_CSP (package_chain rules server path h) = spec_csp hist path h /\\ "
+     "h_all H_REFERRER (package_chain rules server path h) = spec_referrer h /\\ "
+     "h_all H_SERVER (package_chain rules server path h) = [server] /\\ "
+     "h_all H_NONCE (package_chain rules server path h) = []"),
+    ("always_headers_send",
+     "forall (rewrite : bytes -> bytes -> outcome bytes) (hist : list (bytes * csp_rule)) (rules : ruleset csp_rule) "
+     "(server : bytes) (hs : list chandler), rs_reach hist rules -> "
+     "forall rs st out, conn_run rewrite (fun p h => package_chain rules server p h) hs st rs = Ok out -> "
+     "Forall (fun rep => h_all H_SERVER (rp_headers rep) = [server] /\\ h_all H_NONCE (rp_headers rep) = [] /\\ "
+     "h_all H_REFERRER (rp_headers rep) <> [] /\\ "
+     "exists p h, h_all H_CSP (rp_headers rep) = spec_csp hist p h /\\ h_all H_REFERRER (rp_headers rep) = spec_referrer h) out"),
+]
